@@ -10,7 +10,7 @@ From CGV Require Import Base.PyBase Base.PyVal Gen.FragGen Dialect.DialectImpl F
      Frag.StripFacts Frag.FragProofs Frag.FragTextX Frag.FragProofsX Frag.FragStages Frag.FragSmall Frag.RingProofs
      Gen.SmilesGen Frag.SmilesParse Frag.SmilesSpec Frag.SmilesProofs Frag.SmilesIndex Frag.SmilesRelabel Frag.SmilesPerm
      Frag.Template Frag.TemplateProofs Frag.TemplateFinal Frag.TemplateGraph Frag.TemplateCompose Frag.SmilesReverse Frag.SmilesPermR
-     Frag.FragTextW Frag.FragProofsW Frag.SmilesReroot Frag.SmilesRewrite Frag.SmilesPermX Frag.SmilesPermG Frag.SmilesWf Frag.SmilesDescend Frag.SmilesTree Frag.SmilesTreeText Frag.TemplateChiral Frag.TemplateChiralProofs.
+     Frag.FragTextW Frag.FragProofsW Frag.SmilesReroot Frag.SmilesRewrite Frag.SmilesPermX Frag.SmilesPermG Frag.SmilesWf Frag.SmilesDescend Frag.SmilesTree Frag.SmilesTreeText Frag.SmilesDecor Frag.TemplateChiral Frag.TemplateChiralProofs.
 From CGV Require Import Base.NxGraph Compose.CutModel Compose.CutSpecDefs.
 Local Open Scope nat_scope.
 Import ListNotations.
@@ -715,6 +715,48 @@ Theorem C01_start_atom_any_tree_text : forall path w, tree_text w -> all_ok w = 
 Proof. exact descend_path_total_text. Qed.
 Example C01_start_atom_tree_text_nonvacuous : tree_text ds_w /\ all_ok ds_w = true /\ in_range [None; Some 2; Some 1] ds_w.
 Proof. exact tree_text_example. Qed.
+(** DESCRIPTORS AND ANNOTATIONS are carried along by the re-rooting step (Frag/SmilesDecor.v).  [parser_view] is what
+    strip_bonding_descriptors returns for a decorated fragment (C13_index_agrees_with_parser): descriptors keyed by the
+    parser's current atom, annotations by the node counter.  Write the same descriptors after the same tokens in both
+    writings (the LEADING descriptors of  a P [b] x R  are written after a in  x ( [b] a P ) R , where they are the first
+    descriptors of a again): the two descriptor dictionaries and the two annotation dictionaries are related by the
+    rotation — atom [rot m i] of the second writing carries exactly the descriptor list (same order) and the annotation
+    dict of atom i of the first; both fail together (a bad annotation, a ring-bond error).  Along any permutation
+    simulation the dictionaries follow the permutation ([xrun_psimu]); while the groups P are read one atom ahead they
+    follow i -> i+1 ([xrun_rsim]) *)
+Theorem C01_reroot_carries_decor : forall fo a P b x R lead aa aP ax aR,
+  is_atomtok a = true -> is_atomtok x = true -> blocksb false 0 P = true -> length aP = length P ->
+  let m := Datatypes.S (count_atoms P) in
+  both_fail_or (fun v1 v2 => let '(g, d, an) := v1 in let '(h, d', an') := v2 in
+                  drel (rot m) d d' /\ drel (rot m) an an' /\ PSimU (rot m) g h)
+    (parser_view fo (rr_src a P b x R) {| d_lead := lead; d_after := src_after aa aP b ax aR |})
+    (parser_view fo (rr_dst a P b x R) {| d_lead := []; d_after := dst_after lead aa aP b ax aR |}).
+Proof. exact reroot_decor. Qed.
+Theorem C01_reroot_carries_decor_strip : forall fo a P b x R lead aa aP ax aR c1 d1 e1 a1 c2 d2 e2 a2 g pd pa h pd' pa',
+  is_atomtok a = true -> is_atomtok x = true -> blocksb false 0 P = true -> length aP = length P ->
+  let src := rr_src a P b x R in let dst := rr_dst a P b x R in
+  let sdc := {| d_lead := lead; d_after := src_after aa aP b ax aR |} in
+  let ddc := {| d_lead := []; d_after := dst_after lead aa aP b ax aR |} in
+  wf src sdc = true -> excluded src sdc = false -> wf_smiles src = true ->
+  wf dst ddc = true -> excluded dst ddc = false -> wf_smiles dst = true ->
+  strip_bonding_descriptors fo (render (decorate src sdc)) = Ok (c1, d1, e1, a1) ->
+  strip_bonding_descriptors fo (render (decorate dst ddc)) = Ok (c2, d2, e2, a2) ->
+  parser_view fo src sdc = Ok (g, pd, pa) -> parser_view fo dst ddc = Ok (h, pd', pa') ->
+  drel (rot (Datatypes.S (count_atoms P))) d1 d2 /\ drel (rot (Datatypes.S (count_atoms P))) a1 a2.
+Proof. exact reroot_decor_strip. Qed.
+Theorem C01_permutation_carries_decor : forall s fo toks after g h d d' a a', sigma_ok s (q_n g) -> XS s g h d d' a a' ->
+  xrel s (xrun fo g d a toks after) (xrun fo h d' a' toks after).
+Proof. exact xrun_psimu. Qed.
+Example C01_reroot_carries_decor_nonvacuous :
+  to_string (render (decorate (rr_src dx_a dx_P None dx_x dx_R) dx_src)) = "[$]C(F[>])[!1][CH;x=S][<]O[$a]"%string /\
+  to_string (render (decorate (rr_dst dx_a dx_P None dx_x dx_R) dx_dst)) = "[CH;x=S][<](C[$](F[>])[!1])O[$a]"%string /\
+  wf (rr_src dx_a dx_P None dx_x dx_R) dx_src = true /\ wf (rr_dst dx_a dx_P None dx_x dx_R) dx_dst = true /\
+  (exists g d an, parser_view (fo_of_table []) (rr_src dx_a dx_P None dx_x dx_R) dx_src = Ok (g, d, an) /\
+     d = [(0, [S "$1"; S "!11"]); (1, [S ">1"]); (2, [S "<1"]); (3, [S "$a1"])] /\ map fst an = [2]) /\
+  (exists h d' an', parser_view (fo_of_table []) (rr_dst dx_a dx_P None dx_x dx_R) dx_dst = Ok (h, d', an') /\
+     d' = [(0, [S "<1"]); (1, [S "$1"; S "!11"]); (2, [S ">1"]); (3, [S "$a1"])] /\ map fst an' = [0]) /\
+  map (rot 2) [0; 1; 2; 3] = [1; 2; 0; 3].
+Proof. exact decor_example. Qed.
 (** the documented bond orders are the ones of the installed pysmiles *)
 Theorem C13_smiles_orders : forall b, smiles_bond_to_order_lookup [bchar b] = Ok (border b).
 Proof. exact smiles_order_bchar. Qed.
@@ -762,3 +804,5 @@ Print Assumptions C01_branch_order_anyrings_text.
 Print Assumptions C01_start_atom_any_partial.
 Print Assumptions C01_start_atom_any_tree.
 Print Assumptions C01_start_atom_any_tree_text.
+Print Assumptions C01_reroot_carries_decor.
+Print Assumptions C01_reroot_carries_decor_strip.
